@@ -14,6 +14,10 @@ class SchedProp(DiffProp):
     bound = {"quick": 1, "thorough": 2}
     max_exec = {"quick": 400, "thorough": 4000}
     negcycle_families = ("F1.1", "F1.2", "F1.2q")
+    # a choice tree whose default run offers at most this many combinations is explored COMPLETELY (no
+    # deviation bound); the per-program execution cap still applies
+    full_tree = {"quick": 32, "thorough": 256}
+    _tier = "quick"
 
     def run_default(self, prog):
         out, ch = engines.run_with_engine(program_text(prog), "counting")
@@ -35,10 +39,17 @@ class SchedProp(DiffProp):
             out, ch = engines.run_with_engine(src, kind, prefix, horizon=horizon)
             return ch.trace, out
 
+        trace0, _ = run([])
+        size = 1
+        for n, _, _ in trace0:
+            size *= max(1, n)
+        if size <= self.full_tree[self._tier]:
+            bound = 10 ** 6
         return explore_deviations(run, bound, max_exec=max_exec)
 
     def run_shard(self, shard, tier, acc):
         fam, mod, rem = shard
+        self._tier = tier
         selftest_done = False
         for idx, prog in streams.shard_stream(fam, tier, mod, rem):
             if acc.expired():
